@@ -33,10 +33,18 @@ def specMeets (digest : List UInt8) (d : Nat) : Bool := decide (d ≤ Spec.Pow.l
     `required` is the number of bits the specification demands (cap already applied where it applies). -/
 def preDgValid (surface : String) (pre : List UInt8) (modelValid : Bool) (required : Nat) (impl : Option String) : String × String :=
   let dg := sha pre
-  let out := s!"pre={hexB pre} dg={hexB dg} valid={b01 modelValid}"
+  let unobserved := (impl.bind (field · "pre")) == some "?"
+  let out := if unobserved then s!"pre=? dg=? valid={b01 modelValid}" else s!"pre={hexB pre} dg={hexB dg} valid={b01 modelValid}"
   let verdict := match impl with
     | none => "ok"
     | some line =>
+      if unobserved then
+        -- harness built without internals and the validator did not hash (difficulty 0): only the verdict is
+        -- visible; it is judged against the digest of the encoding the specification expects
+        match field line "valid" with
+        | some iv => if iv != b01 (specMeets dg required) then s!"viol:accept-{surface}:lz={Spec.Pow.lz dg} required={required}" else "ok"
+        | none => s!"viol:malformed-{surface}"
+      else
       match bytesField line "pre", bytesField line "dg", field line "valid" with
       | some ipre, some idg, some iv =>
         if ipre != pre then s!"viol:encoding-{surface}:expected preimage {hexB pre}"
@@ -70,15 +78,19 @@ def announceOf (t : List String) : Option AnnounceFields :=
 
 def step (_ : Unit) (tok : List String) (_line : String) (impl : Option String) : Unit × String × String :=
   let bad : Unit × String × String := ((), "bad-op", "ok")
+  -- an op the harness cannot perform without the repository's private helpers (VERIF_INTERNALS=0): unobserved
+  if impl == some "skip" then ((), "skip", "ok") else
   match tok with
   | ["lz", dgHex, d] =>
     match bytesOfHex dgHex, d.toNat? with
     | some dg, some d =>
       let d := d % 256
-      let node := if dg.length == 32 then toString (clzNode dg) else "-"
-      let out := s!"node={node} store={clzStore dg} cli={clzCli dg} meets={b01 (meetsDifficulty dg d)}"
+      -- counters the harness could not reach (built with VERIF_INTERNALS=0) are printed as `?` and not judged
+      let hidden (k : String) : Bool := (impl.bind (field · k)) == some "?"
       let l := Spec.Pow.lz dg
-      let expect := s!"node={if dg.length == 32 then toString l else "-"} store={l} cli={l} meets={b01 (decide (d ≤ l))}"
+      let show' (k : String) (v : String) : String := if hidden k then "?" else v
+      let out := s!"node={show' "node" (if dg.length == 32 then toString (clzNode dg) else "-")} store={show' "store" (toString (clzStore dg))} cli={show' "cli" (toString (clzCli dg))} meets={b01 (meetsDifficulty dg d)}"
+      let expect := s!"node={show' "node" (if dg.length == 32 then toString l else "-")} store={show' "store" (toString l)} cli={show' "cli" (toString l)} meets={b01 (decide (d ≤ l))}"
       let verdict := match impl with
         | none => "ok"
         | some i => if i == expect then "ok" else s!"viol:counter:expected {expect}"
